@@ -12,7 +12,7 @@ REQUIRED_FEATURES = ["three_fields", "two_dim_field", "zero_length", "mask_selec
                      "two_dim_first_field", "index_array_selector", "simultaneous_iterations"]
 BOUNDS = {"quick": "1-3 fields (1-D int, 2-D int, 1-D float) x length 0..4 x {every int, 27 slices, lists of length<=2 incl. empty, every mask} + iteration, "
                    "concatenate pairs and triples with lengths 0..3, equality, astype to a narrower class, fields one entry longer/shorter; VarLenArray "
-                   "concatenation widths 1..3 x lengths 0..2 (pairs) and triples",
+                   "concatenation widths 1..3 x lengths 0..2 (pairs) and triples; five field layouts with a 2-D first field; index arrays and numpy scalars; column shapes compared; simultaneous iterations; inherited dataclass",
           "thorough": "length 0..6, lists of length<=3"}
 _CLS = {}
 
